@@ -813,7 +813,7 @@ func (env *c17env) explainIllegal(recs [][]*opRec) (kind, detail string) {
 		}
 	}
 	sort.Strings(kinds)
-	return strings.Join(kinds, ",") + ":order", "each result is possible alone but no single order explains all of them: " + strings.Join(outcomesOf(recs), " ")
+	return "order", "(operation kinds " + strings.Join(kinds, ",") + ") each result is possible alone but no single order explains all of them: " + strings.Join(outcomesOf(recs), " ")
 }
 
 func (env *c17env) candidateStates(recs [][]*opRec, op Op) []regState {
